@@ -625,9 +625,19 @@ func resolveAllProtocolChanges(newEnv, oldEnv *Environment, context *EvolutionCo
 				continue
 			}
 
-			if protocolChange := compareProtocolDefinitions(newProt, oldProt, context); protocolChange != nil {
+			protocolChange := compareProtocolDefinitions(newProt, oldProt, context)
+			previousSchema := GetProtocolSchemaString(oldProt, oldEnv.SymbolTable)
+			if protocolChange == nil && previousSchema != GetProtocolSchemaString(newProt, newEnv.SymbolTable) {
+				// The data is unchanged but the schema in the stream header is not (e.g. a type was
+				// renamed and the old name kept as an alias), so the previous schema has to be known
+				protocolChange = &ProtocolChange{
+					DefinitionPair: DefinitionPair{oldProt, newProt},
+					StepChanges:    make([]TypeChange, len(newProt.Sequence)),
+				}
+			}
+			if protocolChange != nil {
 				// Annotate the ProtocolChange with the Old ProtocolDefinition schema string
-				protocolChange.PreviousSchema = GetProtocolSchemaString(oldProt, oldEnv.SymbolTable)
+				protocolChange.PreviousSchema = previousSchema
 				allProtocolChanges[oldProt.GetQualifiedName()] = protocolChange
 			}
 		}
